@@ -418,6 +418,9 @@ def signature_ranges(ahab):
         b0 = c.chip_config.container_offset + c._signature_block_offset
         nxt = [x for x in (sb._certificate_offset, sb._blob_offset) if x and x > sb.signature_offset]
         out.append((b0 + sb.signature_offset, b0 + (min(nxt) if nxt else len(sb))))
+        ct = getattr(sb, "certificate", None)
+        if ct is not None and sb._certificate_offset:      # the certificate is signed again too: its own signature container
+            out.append((b0 + sb._certificate_offset + ct.signature_offset, b0 + sb._certificate_offset + len(ct)))
     return out
 
 
